@@ -117,7 +117,7 @@ static void check_table(Rng& rng, const Table& T, Interpolation& I, const Steffe
 				judge(cl, (double) fabsl((ld) dk - rk), K_DER * EPS * S / hk, [&] { return J().d("x", q).i("segment", j).i("order", k).d("got", dk).d("ref", (double) rk); });
 			}
 			double d0 = I.Derivative(q, 0);
-			require("derivative-0-is-interpolate", same_bits(d0, v), [&] { return J().d("x", q).d("Derivative(x,0)", d0).d("Interpolate(x)", v); });
+			judge("derivative-0-is-interpolate", std::fabs(d0 - v), K_VAL * EPS * S, [&] { return J().d("x", q).d("Derivative(x,0)", d0).d("Interpolate(x)", v); });
 			unsigned hi_order = 4 + (unsigned) rng.below(5);
 			double d4		  = I.Derivative(q, hi_order);
 			require("derivative-order>=4-is-zero", d4 == 0.0, [&] { return J().d("x", q).i("order", hi_order).d("got", d4); });
